@@ -6,11 +6,11 @@
    msg_unknown_reemitted        Marshal writes the unknown bytes after the known fields
    msg_discard_unknown          DiscardUnknown: no message of the tree keeps unknown bytes
    msg_schema_evolution_arbitrary_bytes_refuted, msg_schema_evolution_example
-   msg_schema_evolution_flat    schema evolution for messages whose populated fields are of scalar kind *)
+   msg_schema_evolution_kept_scalar   schema evolution: any deleted fields, kept populated fields of scalar kind *)
 From Coq Require Import List Arith NArith ZArith Lia Bool Permutation.
 From Coq Require Import ZifyBool ZifyNat ZifyN.
 From PB Require Import Base.PBytes Wire.WireModel Wire.VarintP Wire.ScanP Msg.MsgSchema Msg.MsgValue Msg.MsgUtf8 Msg.MsgEnc Msg.MsgDec Msg.MsgValid
-  Msg.MsgWireP Msg.MsgScalarP Msg.MsgAssocP Msg.MsgSizeP Msg.MsgRoundP Msg.MsgExample Msg.UnkModel.
+  Msg.MsgWireP Msg.MsgScalarP Msg.MsgAssocP Msg.MsgSizeP Msg.MsgRoundP Msg.MsgExample Msg.UnkModel Msg.MergeModel Msg.MergeP.
 Ltac Zify.zify_post_hook ::= Z.div_mod_to_equations.
 Import ListNotations.
 Open Scope N_scope.
@@ -194,7 +194,7 @@ Example msg_schema_evolution_example :
               msg_has_unknown v' = true /\ v' <> ex_msg).
 Proof. split; [vm_compute; reflexivity|]. eexists. split; [vm_compute; reflexivity|]. split; [vm_compute; reflexivity|discriminate]. Qed.
 
-(* ================= schema evolution, scalar-kinded fields ================= *)
+(* ================= schema evolution: arbitrary deleted fields, kept fields of scalar kind ================= *)
 (* ---------- the restricted schema ---------- *)
 Lemma msg_restrict_from_nth keep : forall S k tid,
   nth_error (msg_restrict_from keep k S) tid =
@@ -283,26 +283,60 @@ Section EvoDec.
   Variable S : schema.   (* the schema of the encoder *)
   Notation eb := (msg_enc_body S).
 
-  Lemma msg_dm_deleted_elems num sk : forall vs accf U tail g,
-    1 <= num -> num <= msg_max_num ->
-    msg_find_field md' num = None ->
-    Forall (fun v => match v with VS s => sk_ok sk s = true /\ msg_wval_ok (sk_enc sk s) = true | _ => False end) vs ->
-    (length (flat_map (fun e => msg_enc_elem eb num (KS sk) e) vs ++ tail) < length g)%nat ->
+  (* one element (scalar, length-delimited message, group) of a field md' does not have *)
+  Lemma msg_dm_deleted_elem tv fd v accf U tail g :
+    1 <= f_num fd -> f_num fd <= msg_max_num -> msg_find_field md' (f_num fd) = None ->
+    msg_typed_elem true eb tv fd v = true ->
+    msg_szok_elem (msg_size_body S) (msg_sizes_ok S) (f_kind fd) v = true ->
+    (length (msg_enc_elem eb (f_num fd) (f_kind fd) v ++ tail) < length g)%nat ->
     exists g2, (length tail < length g2)%nat /\
-      dm (Datatypes.S d) tid grp g (flat_map (fun e => msg_enc_elem eb num (KS sk) e) vs ++ tail) (accf, U) =
-      dm (Datatypes.S d) tid grp g2 tail (accf, U ++ flat_map (fun e => msg_enc_elem eb num (KS sk) e) vs).
+      dm (Datatypes.S d) tid grp g (msg_enc_elem eb (f_num fd) (f_kind fd) v ++ tail) (accf, U) =
+      dm (Datatypes.S d) tid grp g2 tail (accf, U ++ msg_enc_elem eb (f_num fd) (f_kind fd) v).
   Proof.
-    induction vs as [|v vs IH]; intros accf U tail g Hlo Hhi Hnone Hall Hg.
+    intros Hlo Hhi Hnone Hty Hsz Hg.
+    assert (Hrej : forall typ, msg_rejects md' has2 (f_num fd) typ = true)
+      by (intros typ; unfold msg_rejects; rewrite Hnone; reflexivity).
+    unfold msg_typed_elem in Hty. unfold msg_enc_elem, msg_szok_elem in *.
+    destruct (f_kind fd) as [sk|t|t]; destruct v as [s|fs' u'|k0 v0]; try discriminate.
+    - apply andb_true_iff in Hty. destruct Hty as [Hok _]. rewrite <- app_assoc in *.
+      apply (msg_dm_unknown_field (f_num fd) (sk_wt sk) (msg_enc_scalar sk s) tail accf U g (sk_enc sk s));
+        try assumption; [destruct sk; cbn; lia|destruct sk; cbn; lia|apply Hrej|].
+      apply msg_parse_scalar; assumption.
+    - apply andb_true_iff in Hsz. destruct Hsz as [Hsok Hslt].
+      pose proof (msg_body_len S t _ Hsok Hslt) as Hlen. rewrite <- app_assoc in *.
+      apply (msg_dm_unknown_field (f_num fd) 2 (enc_bytes (eb t (VMsg fs' u'))) tail accf U g (WLen (eb t (VMsg fs' u'))));
+        try assumption; try lia; [apply Hrej|].
+      rewrite msg_parse_val_len, (msgw_dec_bytes_enc _ _ Hlen). reflexivity.
+    - apply andb_true_iff in Hty. destruct Hty as [_ Hscan]. cbn [negb orb] in Hscan.
+      unfold msg_group_scans in Hscan.
+      destruct (parse_val default_dep (f_num fd) 3 (eb t (VMsg fs' u') ++ enc_tag (f_num fd) 4)) as [[w [|? ?]]|e] eqn:Hpv;
+        try discriminate.
+      destruct (msg_parse_val_ext _ _ _ _ _ _ tail Hpv) as (w' & Hpv'). cbn [app] in Hpv'.
+      replace ((enc_tag (f_num fd) 3 ++ eb t (VMsg fs' u') ++ enc_tag (f_num fd) 4) ++ tail)
+        with (enc_tag (f_num fd) 3 ++ (eb t (VMsg fs' u') ++ enc_tag (f_num fd) 4) ++ tail) in *
+        by (rewrite <- !app_assoc; reflexivity).
+      destruct (msg_dm_unknown_field (f_num fd) 3 (eb t (VMsg fs' u') ++ enc_tag (f_num fd) 4) tail accf U g w')
+        as (g2 & Hg2 & E); try assumption; try lia; [apply Hrej|].
+      exists g2. split; [exact Hg2|]. etransitivity; [exact E|]. try rewrite <- !app_assoc; reflexivity.
+  Qed.
+
+  Lemma msg_dm_deleted_elems tv fd : forall vs accf U tail g,
+    1 <= f_num fd -> f_num fd <= msg_max_num -> msg_find_field md' (f_num fd) = None ->
+    forallb (msg_typed_elem true eb tv fd) vs = true ->
+    forallb (msg_szok_elem (msg_size_body S) (msg_sizes_ok S) (f_kind fd)) vs = true ->
+    (length (flat_map (fun e => msg_enc_elem eb (f_num fd) (f_kind fd) e) vs ++ tail) < length g)%nat ->
+    exists g2, (length tail < length g2)%nat /\
+      dm (Datatypes.S d) tid grp g (flat_map (fun e => msg_enc_elem eb (f_num fd) (f_kind fd) e) vs ++ tail) (accf, U) =
+      dm (Datatypes.S d) tid grp g2 tail (accf, U ++ flat_map (fun e => msg_enc_elem eb (f_num fd) (f_kind fd) e) vs).
+  Proof.
+    induction vs as [|v vs IH]; intros accf U tail g Hlo Hhi Hnone Hty Hsz Hg.
     - exists g. cbn [flat_map app] in *. rewrite app_nil_r. split; [exact Hg|reflexivity].
-    - inversion Hall as [|? ? Hv Hvs]; subst. destruct v as [s| |]; try contradiction. destruct Hv as [Hok Hw].
-      cbn [flat_map msg_enc_elem] in *. rewrite <- !app_assoc in *.
-      destruct (msg_dm_unknown_field num (sk_wt sk) (msg_enc_scalar sk s)
-                  (flat_map (fun e => msg_enc_elem eb num (KS sk) e) vs ++ tail) accf U g (sk_enc sk s) Hlo Hhi)
-        as (g1 & Hg1 & E1); [destruct sk; cbn; lia|destruct sk; cbn; lia| | |exact Hg|].
-      + unfold msg_rejects. rewrite Hnone. reflexivity.
-      + apply msg_parse_scalar; assumption.
-      + destruct (IH accf (U ++ enc_tag num (sk_wt sk) ++ msg_enc_scalar sk s) tail g1 Hlo Hhi Hnone Hvs Hg1) as (g2 & Hg2 & E2).
-        exists g2. split; [exact Hg2|]. etransitivity; [exact E1|]. etransitivity; [exact E2|]. rewrite <- !app_assoc. reflexivity.
+    - cbn [forallb] in Hty, Hsz. apply andb_true_iff in Hty. destruct Hty as [Htv Hty].
+      apply andb_true_iff in Hsz. destruct Hsz as [Hsv Hsz].
+      cbn [flat_map] in *. rewrite <- !app_assoc in *.
+      destruct (msg_dm_deleted_elem tv fd v accf U _ g Hlo Hhi Hnone Htv Hsv Hg) as (g1 & Hg1 & E1).
+      destruct (IH accf (U ++ msg_enc_elem eb (f_num fd) (f_kind fd) v) tail g1 Hlo Hhi Hnone Hty Hsz Hg1) as (g2 & Hg2 & E2).
+      exists g2. split; [exact Hg2|]. etransitivity; [exact E1|]. etransitivity; [exact E2|]. rewrite <- !app_assoc. reflexivity.
   Qed.
 
   Lemma msg_dm_deleted_len num payload accf U tail g :
@@ -319,92 +353,80 @@ Section EvoDec.
     - rewrite msg_parse_val_len, (msgw_dec_bytes_enc _ _ Hlen). reflexivity.
   Qed.
 
-  Lemma msg_dm_deleted_entries num kk sk : forall es accf U tail g,
+  Lemma msg_dm_deleted_entries num kk vk : forall es accf U tail g,
     1 <= num -> num <= msg_max_num -> msg_find_field md' num = None ->
-    Forall (fun e => msg_szok_entry (msg_size_body S) (msg_sizes_ok S) kk (KS sk) e = true /\
-                     match e with VEntry _ (VS _) => True | _ => False end) es ->
-    (length (flat_map (fun e => msg_enc_entry eb num kk (KS sk) e) es ++ tail) < length g)%nat ->
+    Forall (fun e => msg_szok_entry (msg_size_body S) (msg_sizes_ok S) kk vk e = true /\
+                     match e with VEntry _ _ => True | _ => False end) es ->
+    (length (flat_map (fun e => msg_enc_entry eb num kk vk e) es ++ tail) < length g)%nat ->
     exists g2, (length tail < length g2)%nat /\
-      dm (Datatypes.S d) tid grp g (flat_map (fun e => msg_enc_entry eb num kk (KS sk) e) es ++ tail) (accf, U) =
-      dm (Datatypes.S d) tid grp g2 tail (accf, U ++ flat_map (fun e => msg_enc_entry eb num kk (KS sk) e) es).
+      dm (Datatypes.S d) tid grp g (flat_map (fun e => msg_enc_entry eb num kk vk e) es ++ tail) (accf, U) =
+      dm (Datatypes.S d) tid grp g2 tail (accf, U ++ flat_map (fun e => msg_enc_entry eb num kk vk e) es).
   Proof.
     induction es as [|e es IH]; intros accf U tail g Hlo Hhi Hnone Hall Hg.
     - exists g. cbn [flat_map app] in *. rewrite app_nil_r. split; [exact Hg|reflexivity].
     - inversion Hall as [|? ? [Hsz Hshape] Hes]; subst.
-      destruct e as [|?|key [s| |]]; try contradiction.
+      destruct e as [|?|key v]; try contradiction.
       cbn [flat_map msg_enc_entry] in *. rewrite <- !app_assoc in *.
       cbn [msg_szok_entry] in Hsz.
       apply andb_true_iff in Hsz. destruct Hsz as [Hsz Hblen].
       apply andb_true_iff in Hsz. destruct Hsz as [Hkw Hvsz].
-      assert (Hbody : N.of_nat (length (msg_enc_key kk key ++ msg_enc_elem eb 2 (KS sk) (VS s))) < 2^64).
+      assert (Hbody : N.of_nat (length (msg_enc_key kk key ++ msg_enc_elem eb 2 vk v)) < 2^64).
       { rewrite app_length, Nnat.Nat2N.inj_add.
         rewrite <- (msg_size_key_eq kk key Hkw).
-        rewrite <- (msg_size_elem_eq (msg_size_body S) eb (msg_sizes_ok S) 2 (KS sk) (VS s));
-          [rewrite <- msg_two64_eq; lia|cbn; lia|apply (proj1 (msg_size_eq_deep S (VS s)))|exact Hvsz]. }
-      destruct (msg_dm_deleted_len num (msg_enc_key kk key ++ msg_enc_elem eb 2 (KS sk) (VS s)) accf U
-                  (flat_map (fun e => msg_enc_entry eb num kk (KS sk) e) es ++ tail) g
+        rewrite <- (msg_size_elem_eq (msg_size_body S) eb (msg_sizes_ok S) 2 vk v);
+          [rewrite <- msg_two64_eq; lia|cbn; lia|apply (proj1 (msg_size_eq_deep S v))|exact Hvsz]. }
+      destruct (msg_dm_deleted_len num (msg_enc_key kk key ++ msg_enc_elem eb 2 vk v) accf U
+                  (flat_map (fun e => msg_enc_entry eb num kk vk e) es ++ tail) g
                   Hlo Hhi Hnone Hbody Hg) as (g1 & Hg1 & E1).
-      destruct (IH accf (U ++ enc_tag num 2 ++ enc_bytes (msg_enc_key kk key ++ msg_enc_elem eb 2 (KS sk) (VS s))) tail g1
+      destruct (IH accf (U ++ enc_tag num 2 ++ enc_bytes (msg_enc_key kk key ++ msg_enc_elem eb 2 vk v)) tail g1
                   Hlo Hhi Hnone Hes Hg1) as (g2 & Hg2 & E2).
       exists g2. split; [exact Hg2|]. etransitivity; [exact E1|]. etransitivity; [exact E2|]. rewrite <- !app_assoc. reflexivity.
   Qed.
 
-  (* a scalar-kinded field of the full schema that md' does not have: all its occurrences are kept *)
-  Lemma msg_dm_deleted_field slow tv tv2 h2 fd vs sk accf U tail g :
-    f_kind fd = KS sk -> msg_find_field md' (f_num fd) = None ->
-    msg_typed_field slow eb tv tv2 h2 fd vs = true ->
+  (* a field of the full schema that md' does not have: all its occurrences are kept verbatim *)
+  Lemma msg_dm_deleted_field tv tv2 h2 fd vs accf U tail g :
+    msg_find_field md' (f_num fd) = None ->
+    msg_typed_field true eb tv tv2 h2 fd vs = true ->
     msg_szok_field (msg_size_body S) (msg_sizes_ok S) fd vs = true ->
     (length (msg_enc_field eb fd vs ++ tail) < length g)%nat ->
     exists g2, (length tail < length g2)%nat /\
       dm (Datatypes.S d) tid grp g (msg_enc_field eb fd vs ++ tail) (accf, U) =
       dm (Datatypes.S d) tid grp g2 tail (accf, U ++ msg_enc_field eb fd vs).
   Proof.
-    intros Hk Hnone Hty Hsz Hg.
+    intros Hnone Hty Hsz Hg.
     unfold msg_typed_field in Hty. unfold msg_szok_field in Hsz. unfold msg_enc_field in *.
     apply andb_true_iff in Hty. destruct Hty as [Hnum Hty].
     apply andb_true_iff in Hnum. destruct Hnum as [Hlo Hhi].
     apply andb_true_iff in Hsz. destruct Hsz as [_ Hsz].
     assert (Hlo' : 1 <= f_num fd) by lia. assert (Hhi' : f_num fd <= msg_max_num) by lia.
-    rewrite Hk in *.
-    assert (Hgood : forallb (msg_typed_elem slow eb tv fd) vs = true ->
-                    forallb (msg_szok_elem (msg_size_body S) (msg_sizes_ok S) (KS sk)) vs = true ->
-                    Forall (fun v => match v with VS s => sk_ok sk s = true /\ msg_wval_ok (sk_enc sk s) = true | _ => False end) vs).
-    { intros H1 H2. rewrite forallb_forall in H1, H2. apply Forall_forall. intros v Hv.
-      specialize (H1 v Hv). specialize (H2 v Hv). unfold msg_typed_elem in H1. rewrite Hk in H1.
-      destruct v as [s| |]; try discriminate. cbn [msg_szok_elem] in H2.
-      apply andb_true_iff in H1. destruct H1 as [Hok _]. split; assumption. }
-    assert (Hexp : forallb (msg_typed_elem slow eb tv fd) vs = true ->
-                   forallb (msg_szok_elem (msg_size_body S) (msg_sizes_ok S) (KS sk)) vs = true ->
-                   (length (flat_map (fun e => msg_enc_elem eb (f_num fd) (KS sk) e) vs ++ tail) < length g)%nat ->
-                   exists g2, (length tail < length g2)%nat /\
-                     dm (Datatypes.S d) tid grp g (flat_map (fun e => msg_enc_elem eb (f_num fd) (KS sk) e) vs ++ tail) (accf, U) =
-                     dm (Datatypes.S d) tid grp g2 tail (accf, U ++ flat_map (fun e => msg_enc_elem eb (f_num fd) (KS sk) e) vs)).
-    { intros H1 H2 Hgv. apply msg_dm_deleted_elems; try assumption. apply Hgood; assumption. }
     destruct (f_card fd) as [| | | | |kk kutf8 vdef] eqn:Hc.
-    - destruct vs as [|v [|]]; try discriminate. apply Hexp; try assumption. cbn [forallb]. rewrite Hty. reflexivity.
+    - destruct vs as [|v [|]]; try discriminate. apply (msg_dm_deleted_elems tv fd); try assumption.
+      cbn [forallb]. rewrite Hty. reflexivity.
     - destruct vs as [|v [|]]; try discriminate. apply andb_true_iff in Hty. destruct Hty as [Hty _].
-      apply Hexp; try assumption. cbn [forallb]. rewrite Hty. reflexivity.
-    - destruct vs as [|v [|]]; try discriminate. apply Hexp; try assumption. cbn [forallb]. rewrite Hty. reflexivity.
-    - apply Hexp; try assumption. destruct vs; [discriminate|exact Hty].
-    - assert (Htyv : forallb (msg_typed_elem slow eb tv fd) vs = true) by (destruct vs; [discriminate|exact Hty]).
-      destruct vs as [|v0 vs']; [discriminate|].
-      destruct (msg_packable sk) eqn:Hp.
-      + apply andb_true_iff in Hsz. destruct Hsz as [Hszv Hplen].
-        pose proof (msg_packed_eq (msg_size_body S) (msg_sizes_ok S) sk (v0 :: vs') Hszv) as Hpe.
-        assert (Hlen : N.of_nat (length (msg_enc_packed_payload sk (v0 :: vs'))) < 2^64)
-          by (rewrite <- Hpe, <- msg_two64_eq; lia).
-        rewrite <- !app_assoc in *.
-        destruct (msg_dm_deleted_len (f_num fd) (msg_enc_packed_payload sk (v0 :: vs')) accf U tail g Hlo' Hhi' Hnone Hlen Hg) as (g2 & Hg2 & E).
-        exists g2. split; [exact Hg2|]. etransitivity; [exact E|]. try rewrite <- !app_assoc; reflexivity.
-      + apply Hexp; assumption.
+      apply (msg_dm_deleted_elems tv fd); try assumption. cbn [forallb]. rewrite Hty. reflexivity.
+    - destruct vs as [|v [|]]; try discriminate. apply (msg_dm_deleted_elems tv fd); try assumption.
+      cbn [forallb]. rewrite Hty. reflexivity.
+    - apply (msg_dm_deleted_elems tv fd); try assumption. destruct vs; [discriminate|exact Hty].
+    - assert (Htyv : forallb (msg_typed_elem true eb tv fd) vs = true) by (destruct vs; [discriminate|exact Hty]).
+      destruct (f_kind fd) as [sk|t|t] eqn:Hk.
+      + destruct vs as [|v0 vs']; [discriminate|].
+        destruct (msg_packable sk) eqn:Hp.
+        * apply andb_true_iff in Hsz. destruct Hsz as [Hszv Hplen].
+          pose proof (msg_packed_eq (msg_size_body S) (msg_sizes_ok S) sk (v0 :: vs') Hszv) as Hpe.
+          assert (Hlen : N.of_nat (length (msg_enc_packed_payload sk (v0 :: vs'))) < 2^64)
+            by (rewrite <- Hpe, <- msg_two64_eq; lia).
+          rewrite <- !app_assoc in *.
+          destruct (msg_dm_deleted_len (f_num fd) (msg_enc_packed_payload sk (v0 :: vs')) accf U tail g Hlo' Hhi' Hnone Hlen Hg) as (g2 & Hg2 & E).
+          exists g2. split; [exact Hg2|]. etransitivity; [exact E|]. try rewrite <- !app_assoc; reflexivity.
+        * rewrite <- Hk in *. apply (msg_dm_deleted_elems tv fd); assumption.
+      + rewrite <- Hk in *. apply (msg_dm_deleted_elems tv fd); assumption.
+      + rewrite <- Hk in *. apply (msg_dm_deleted_elems tv fd); assumption.
     - apply andb_true_iff in Hty. destruct Hty as [Hty _].
       apply andb_true_iff in Hty. destruct Hty as [_ Hty].
       assert (Htye : forallb (msg_typed_entry tv2 fd kk kutf8) vs = true) by (destruct vs; [discriminate|exact Hty]).
       apply msg_dm_deleted_entries; try assumption.
       rewrite forallb_forall in Htye, Hsz. apply Forall_forall. intros e He. split; [apply Hsz, He|].
-      specialize (Htye e He). unfold msg_typed_entry in Htye. rewrite Hk in Htye.
-      destruct e as [|?|key [s| |]]; try discriminate; try exact I;
-        apply andb_true_iff in Htye; destruct Htye as [_ Htye]; discriminate.
+      specialize (Htye e He). unfold msg_typed_entry in Htye. destruct e; try discriminate. exact I.
   Qed.
 End EvoDec.
 
@@ -450,18 +472,21 @@ Section EvoFlat.
   Hypothesis Hchunks : forall p, In p fs -> msg_typed_chunk true eb (msg_typed true S d) tv2 has2 md p = true.
   Hypothesis Hszc : forall p, In p fs -> msg_szok_chunk (msg_size_body S) (msg_sizes_ok S) md p = true.
   Hypothesis Hone : msg_oneofs_ok md fs = true.
-  Hypothesis Hflat : msg_flat md fs = true.
+  Hypothesis Hflat : msg_kept_scalar (keep O) md fs = true.
 
   Lemma msg_restrict_md' : nth_error S' O = Some md'.
   Proof. unfold msg_restrict. rewrite msg_restrict_from_nth, Hmd. reflexivity. Qed.
 
   Lemma msg_evo_field_of p : In p fs ->
-    exists fd sk, msg_find_field md (fst p) = Some fd /\ f_num fd = fst p /\ f_kind fd = KS sk.
+    exists fd, msg_find_field md (fst p) = Some fd /\ f_num fd = fst p /\
+               (keep O (fst p) = true -> exists sk, f_kind fd = KS sk).
   Proof.
-    intros Hp. unfold msg_flat in Hflat. rewrite forallb_forall in Hflat. specialize (Hflat p Hp).
+    intros Hp. pose proof (Hchunks p Hp) as Hty. unfold msg_typed_chunk in Hty.
     destruct (msg_find_field md (fst p)) as [fd|] eqn:Hf; [|discriminate].
-    unfold msg_scalar_kind in Hflat. destruct (f_kind fd) as [sk| |] eqn:Hk; try discriminate.
-    exists fd, sk. split; [reflexivity|]. split; [exact (msg_find_field_num _ _ _ Hf)|exact Hk].
+    exists fd. split; [reflexivity|]. split; [exact (msg_find_field_num _ _ _ Hf)|].
+    intros Hk. unfold msg_kept_scalar in Hflat. rewrite forallb_forall in Hflat. specialize (Hflat p Hp).
+    rewrite Hk, Hf in Hflat. cbn [negb orb] in Hflat.
+    unfold msg_scalar_kind in Hflat. destruct (f_kind fd) as [sk| |]; try discriminate. exists sk. reflexivity.
   Qed.
 
   (* decoding the encoding (full schema) of the fields P with the reduced schema: kept fields are
@@ -479,7 +504,7 @@ Section EvoFlat.
     induction P as [|p P IH]; intros accf U tail g Hin Hnd Hsub Hg.
     - exists g. cbn [flat_map app filter msg_ins_all fold_left] in *. rewrite app_nil_r. split; [exact Hg|reflexivity].
     - assert (Hp : In p fs) by (apply Hin; left; reflexivity).
-      destruct (msg_evo_field_of p Hp) as (fd & sk & Hf & Hnum & Hk).
+      destruct (msg_evo_field_of p Hp) as (fd & Hf & Hnum & Hks).
       pose proof (Hchunks p Hp) as Hty. pose proof (Hszc p Hp) as Hsz.
       unfold msg_typed_chunk in Hty. unfold msg_szok_chunk in Hsz. rewrite Hf in Hty, Hsz.
       assert (Hc : chunk p = msg_enc_field eb fd (snd p)) by (unfold msg_enc_chunk; rewrite Hf; reflexivity).
@@ -488,6 +513,7 @@ Section EvoFlat.
       assert (HinP : forall q, In q P -> In q fs) by (intros q Hq; apply Hin; right; exact Hq).
       destruct (keep O (fst p)) eqn:Hkeep; cbn [negb].
       + (* kept *)
+        destruct (Hks eq_refl) as (sk & Hk).
         assert (Hf' : msg_find_field md' (f_num fd) = Some fd).
         { rewrite (msg_find_filter (keep O)), Hnum, Hkeep, Hf. reflexivity. }
         assert (Hnot : ~ In (f_num fd) (msg_keys accf)).
@@ -516,8 +542,8 @@ Section EvoFlat.
       + (* deleted *)
         assert (Hnone : msg_find_field md' (f_num fd) = None).
         { rewrite (msg_find_filter (keep O)), Hnum, Hkeep. reflexivity. }
-        destruct (msg_dm_deleted_field S' d O md' grp msg_restrict_md' S true (msg_typed true S d) tv2 has2 fd (snd p) sk
-                    accf U (flat_map chunk P ++ tail) g Hk Hnone Hty Hsz Hg) as (g1 & Hg1 & E1).
+        destruct (msg_dm_deleted_field S' d O md' grp msg_restrict_md' S (msg_typed true S d) tv2 has2 fd (snd p)
+                    accf U (flat_map chunk P ++ tail) g Hnone Hty Hsz Hg) as (g1 & Hg1 & E1).
         destruct (IH accf (U ++ msg_enc_field eb fd (snd p)) tail g1 HinP) as (g2 & Hg2 & E2).
         * inversion Hnd; assumption.
         * exact Hsub.
@@ -539,10 +565,10 @@ Ltac msg_rew_dm E :=
 
 (* schema evolution for messages whose populated fields are all of scalar kind: decode with the
    reduced schema, re-encode with it, decode with the full schema *)
-Theorem msg_schema_evolution_flat slow S keep limit fs unk :
+Theorem msg_schema_evolution_kept_scalar slow S keep limit fs unk :
   msg_valid slow S limit O (VMsg fs unk) = true ->
   msg_valid true S limit O (VMsg fs unk) = true ->
-  msg_flat (nth O S []) fs = true ->
+  msg_kept_scalar (keep O) (nth O S []) fs = true ->
   msg_evolve slow S (msg_restrict keep S) limit (msg_encode S O (VMsg fs unk)) = DOk (VMsg fs unk).
 Proof.
   intros Hv Hvt Hflat.
@@ -598,8 +624,9 @@ Proof.
     apply filter_In in Hp. exact Hp. }
   assert (Echunks : flat_map (fun p => snd (msg_enc_chunk (msg_enc_body S') md' p)) P2 = flat_map chunk P2).
   { apply msg_flat_map_ext_in. intros p Hp. destruct (HinP2 p Hp) as [HpP Hkp].
-    destruct (msg_evo_field_of md fs Hflat p (HinP p HpP)) as (fd & sk & Hf & Hnum & Hk).
-    unfold chunk, msg_enc_chunk. unfold md'. rewrite (msg_find_filter (keep O)). unfold kp in Hkp. rewrite Hkp, Hf.
+    destruct (msg_evo_field_of S keep d md fs Hchunks Hflat p (HinP p HpP)) as (fd & Hf & Hnum & Hks).
+    unfold kp in Hkp. destruct (Hks Hkp) as (sk & Hk).
+    unfold chunk, msg_enc_chunk. unfold md'. rewrite (msg_find_filter (keep O)). rewrite Hkp, Hf.
     cbn [snd]. symmetry. apply (msg_enc_field_scalar _ _ fd (snd p) sk Hk). }
   unfold msg_encode. rewrite Ebody2, Echunks.
   (* 3. decode with the full schema: a permutation of the fields of the message *)
@@ -637,13 +664,10 @@ Proof.
   rewrite (msg_dm_end0 slow S d O md g4 _ Hmd) by lia. reflexivity.
 Qed.
 
-(* non-vacuity: the scalar-kinded part of the C03 example *)
-Definition ex_flat_fs : fields :=
-  [ (1, [VS (SZ (-2147483648))]); (2, [VS (SBy [x68; x69])]); (3, [VS (SZ (-1)); VS (SZ 9223372036854775807)]);
-    (4, [VS (SN 4294967295); VS (SN 0)]); (8, [VS (SBy [])]); (10, [VS (SN 9221120237041090561)]);
-    (11, [VS (SZ (-5))]); (12, [VEntry (SZ (-7)) (VS (SZ 1)); VEntry (SZ 3) (VS (SZ 0))]);
-    (100, [VS (SN 18446744073709551615)]) ].
-Example ex_flat_ok :
-  msg_valid false ex_schema 3 O (VMsg ex_flat_fs []) = true /\ msg_valid true ex_schema 3 O (VMsg ex_flat_fs []) = true /\
-  msg_flat (nth O ex_schema []) ex_flat_fs = true.
+(* non-vacuity: the C03 example; its message-typed fields (a map with message values, a nested
+   recursive message, a group list) and one scalar field are deleted *)
+Definition ex_keep_scalar (tid : nat) (n : N) : bool := negb (existsb (N.eqb n) [3; 5; 6; 7]).
+Example ex_kept_scalar_ok :
+  msg_valid false ex_schema 3 O ex_msg = true /\ msg_valid true ex_schema 3 O ex_msg = true /\
+  (match ex_msg with VMsg fs _ => msg_kept_scalar (ex_keep_scalar O) (nth O ex_schema []) fs | _ => false end) = true.
 Proof. vm_compute. repeat split; reflexivity. Qed.
